@@ -132,17 +132,24 @@ def main():
     # 2. run the checks against /repo with the patch applied
     results = {}
     scratch = None
-    if "--revert" in sys.argv:
+    if "--revert" in sys.argv or "--inplace" not in sys.argv:
         # The patch was written for a tree in which a later "fix:" commit rewrote the very lines it
         # changes. It is judged on a scratch copy of /repo's HEAD with that one commit reverted (outside
         # /repo, removed afterwards); VERIF_GEN_EXCLUDE names the generator element that shows the defect
         # the reverted commit repaired, so that only the seeded change can raise an alarm.
-        rev = sys.argv[sys.argv.index("--revert") + 1]
+        # Without --revert the scratch copy is simply /repo's HEAD plus the patch (the default since round 6:
+        # /repo itself stays untouched, so several seeds can be judged at once; --inplace applies to /repo).
+        rev = sys.argv[sys.argv.index("--revert") + 1] if "--revert" in sys.argv else None
         scratch = "/tmp/seedrepo-%d" % os.getpid()
         sh("git -C /repo worktree add --detach %s HEAD" % scratch)
-        rc1, out1 = sh("git revert --no-commit %s" % rev, cwd=scratch)
+        rc1, out1 = (0, "")
+        if rev:
+            rc1, out1 = sh("git revert --no-commit %s" % rev, cwd=scratch)
         rc2, out2 = sh("git apply --whitespace=nowarn %s" % patch, cwd=scratch)
-        meta["judged_on"] = "scratch copy of /repo HEAD with %s reverted (%s)" % (rev, "ok" if rc1 == 0 and rc2 == 0 else (out1 + out2)[-300:])
+        if rev:
+            meta["judged_on"] = "scratch copy of /repo HEAD with %s reverted (%s)" % (rev, "ok" if rc1 == 0 and rc2 == 0 else (out1 + out2)[-300:])
+        elif rc2 != 0:
+            meta["repo_apply_error"] = out2[-400:]
         if rc1 == 0 and rc2 == 0 and (meta["confirmed"] or "--force" in sys.argv):
             e = dict(ENV, VERIF_REPO=scratch)
             if "--exclude" in sys.argv:
@@ -153,14 +160,16 @@ def main():
             if checks:
                 ids = [i for i in ids if i in checks]
             for i in sorted(ids, key=lambda i: (i != prop, i)):
+                if "--own-first" in sys.argv and i != prop and results.get(prop, {}).get("violation"):
+                    break  # caught by its own check: the other checks are not run (saves ~2 min per seed)
                 t0 = time.time()
                 rc, out = sh("./check %s" % i, cwd=ROOT, env=e, timeout=3000)
                 viol = [l for l in out.splitlines() if l.startswith("VIOLATION")]
                 detail = [l for l in out.splitlines() if l.startswith("DETAIL")]
                 results[i] = {"exit": rc, "violation": bool(viol), "detail": (detail[0][:400] if detail else ""), "wall_s": round(time.time() - t0, 1)}
                 print("  %s exit=%d %s" % (i, rc, detail[0][:160] if detail else ""))
-            shutil.rmtree(os.path.join(ROOT, "replays"), ignore_errors=True)
         sh("git -C /repo worktree remove --force %s" % scratch)
+        shutil.rmtree(scratch, ignore_errors=True)
     elif meta["confirmed"] or "--force" in sys.argv:
         rc, out = sh("git status --porcelain", cwd="/repo")
         if out.strip():
